@@ -7,6 +7,15 @@ ids = [p["id"] for p in props]
 
 # id -> (category, technique, text, note, design_ref)
 claimed = {
+ "C11": ("exploration", "bounded-exhaustive input enumeration (nd explorer), canonical-form laws on every returned address",
+         "Every string of <=5 (quick) / <=6 (thorough) symbols over a 28-symbol adversarial alphabet goes through SplitString/Parse/ParseUnsafe, and the full cross product of part pools (1023/1024-byte parts, IP literals, A-labels that expand, dots, fullwidth separators, invalid UTF-8) through New and WithLocal/WithDomain/WithResource; every address returned without error is checked for re-parse equality, part rules, accessor agreement and XML round trip. Complete enumeration, no sampling.",
+         "Trusted: encoding/xml, the 12-line reference splitter. Unicode outside the alphabet/pools is not covered.", "6/C11"),
+ "C17": ("exploration", "bounded-exhaustive input x chunking enumeration (nd explorer), differential against the single-read decoding",
+         "Every string of <=5 (quick) / <=7 (thorough) symbols over an 11-symbol alphabet is decoded under every byte-level chunking (2^(n-1) cut sets), each with EOF reported separately and together with the last piece, plus fragment-assembled inputs and 4K/64K/128K lines; oracle: termination, no panic, losslessness, identical token/style/quote/info sequences, span bracketing laws.",
+         "Trusted: bufio.Scanner. Quote nesting deeper than 4097 levels is skipped (quadratic time). Bytes outside the alphabet are not covered.", "6/C17"),
+ "C20": ("exploration", "bounded-exhaustive value x permutation enumeration (nd explorer) against a literal XEP-0115 5.1 transcription",
+         "Every ordered selection of <=3 (4) identities and features, every list of <=2 forms with every ordered selection of fields/values/FORM_TYPE placement, XML-decoded infos with empty/malformed forms in both orders, x 4 hash functions through Hash and AppendHash(nil); compared with a reference that is itself pinned by the XEP's two worked examples.",
+         "Trusted: the reference transcription (anchored on XEP-0115 5.2/5.3 examples), crypto hashes. Forms without a unique FORM_TYPE are only required to be order-independent and panic-free.", "6/C20"),
  "C16": ("exploration", "bounded-exhaustive input enumeration (nd explorer) against a reference transform",
          "Every string over a 10-symbol adversarial alphabet up to length 5 (quick) / 6 (thorough), plus escapes planted around the 128/256/4096-byte buffer boundaries, is run through String, Bytes, Span, single-call Transform for every prefix x destination capacity, streaming under every 2/3-way split, and transform.Reader/Writer on the real jid package and compared with a 15-line reference; the space is enumerated completely, no sampling.",
          "Trusted: golang.org/x/text/transform driver helpers and the reference escape table (ten sequences of XEP-0106). Inputs outside the alphabet/length bound are not covered.", "6/C16"),
